@@ -21,6 +21,9 @@ fn main() {
     if mode == "asan" {
         cmd.arg("-fsanitize=address");
     }
+    if mode == "vg" {
+        cmd.arg("-DCDRV_VALGRIND");
+    }
     cmd.arg("cdriver/cdrv.c").arg("-o").arg(&obj);
     let st = cmd.status().expect("clang not runnable");
     if !st.success() {
